@@ -41,6 +41,9 @@ func genNode(p *big.Int) *rapid.Generator[node] {
 	})
 }
 
+// nodeCountTail: node counts above the usual 1..8 (see genSize).
+var nodeCountTail = []int{9, 12, 13, 16, 17, 33}
+
 // genNodes draws n distinct nodes in drawn (unsorted) order; the class says which kinds occur.
 func genNodes(t *rapid.T, label string, p *big.Int, n int) ([]*big.Int, string) {
 	ns := rapid.SliceOfNDistinct(genNode(p), n, n, func(x node) string { return x.v.String() }).Draw(t, label)
@@ -132,7 +135,9 @@ func samePoly(a, b []*big.Int) bool {
 
 func (e *env[S, G]) Lagrange(t *rapid.T) {
 	const test = "Lagrange"
-	n := rapid.IntRange(1, 8).Draw(t, "n")
+	// 1..8 nodes, rarely 9..33 (no limit in the library; the in-exponent variant costs 2n group
+	// scalar multiplications per case, which bounds the tail's weight)
+	n := genSize(t, "n", 1, 8, 25, nodeCountTail)
 	nodes, nc := genNodes(t, "nodes", e.p, n)
 	coeffs, pc := genPoly(t, "c", e.p, 1, n) // degree < n
 	values := evalAll(coeffs, nodes, e.p)
@@ -235,7 +240,7 @@ func TestLagrange(t *testing.T) {
 
 func (e *env[S, G]) Vandermonde(t *rapid.T) {
 	const test = "Vandermonde"
-	n := rapid.IntRange(1, 8).Draw(t, "n")
+	n := genSize(t, "n", 1, 8, 20, nodeCountTail) // field arithmetic only: a slightly heavier tail
 	nodes, nc := genNodes(t, "nodes", e.p, n)
 	coeffs, pc := genPoly(t, "c", e.p, 1, n)
 	values := evalAll(coeffs, nodes, e.p)
@@ -329,10 +334,25 @@ func genBirkhoff(t *rapid.T, p *big.Int) birkhoffLayout {
 	// strictly increasing thresholds, the last one is k <= 7
 	var thr []int
 	cur := 0
-	for l := 0; l < levels; l++ {
-		room := 7 - cur - (levels - 1 - l)
-		cur += rapid.IntRange(1, min(room, 3)).Draw(t, fmt.Sprintf("thr%d", l))
-		thr = append(thr, cur)
+	if rapid.IntRange(1, 33).Draw(t, "bigK") == 33 {
+		// tail: k in 8..16 with up to 5 levels and unbounded steps (the library has no limit on k,
+		// on the number of levels or on the derivative orders; 12 / 13 straddle the insertion-sort
+		// cut-off of sort.Sort in birkhoff's SortNodes). InterpolateInExponent evaluates k^2 minors
+		// and k^2 group scalar multiplications, hence the cap at 16 and the low weight.
+		kBig := rapid.SampledFrom([]int{8, 9, 9, 12, 13, 13, 16}).Draw(t, "kBig")
+		levels = rapid.IntRange(1, 5).Draw(t, "levelsBig")
+		for l := 0; l < levels-1; l++ {
+			room := kBig - cur - (levels - 1 - l)
+			cur += rapid.IntRange(1, room).Draw(t, fmt.Sprintf("thrBig%d", l))
+			thr = append(thr, cur)
+		}
+		thr = append(thr, kBig)
+	} else {
+		for l := 0; l < levels; l++ {
+			room := 7 - cur - (levels - 1 - l)
+			cur += rapid.IntRange(1, min(room, 3)).Draw(t, fmt.Sprintf("thr%d", l))
+			thr = append(thr, cur)
+		}
 	}
 	k := thr[levels-1]
 	ranks := make([]int, levels)
